@@ -6,7 +6,7 @@
    for those kinds is PARTIAL in that sense.  Rounding of the binary64 execution is not modelled. *)
 From Coq Require Import Reals List Arith Bool ZArith PrimFloat SpecFloat FloatOps Sorted.
 Require Import Num Result C14_Count C14_Interp C14_Index C14_Grid C14_Lerp C14_Eval C14_Obs C14_Track C14_Body C14_CountP
-               C14_Main C14_Witness C14_Examples C14_GenTie Gen_C14.
+               C14_CountAll C14_Main C14_Witness C14_Examples C14_GenTie Gen_C14.
 Import ListNotations.
 Set Warnings "-inexact-float".
 
@@ -69,11 +69,26 @@ Theorem identity_rate : forall sp, spline_ok sp -> forall b new_fps k o n, inter
   out_row o i p t = in_row b i p t /\ out_mask o i p t = false.
 Proof. exact identity_body. Qed.
 Print Assumptions identity_rate.
-(* PARTIAL: that round(F * r / r) = F is shown for F = 2..1024 and 24 usual rates only (a general proof needs a
-   binary64 rounding-error analysis); identity_rate itself takes "the count is F" as its hypothesis *)
+(* identity_rate takes "the count is F" as its hypothesis; at an unchanged rate the count IS F:
+   (i) closed proof by computation for F = 2..1024 and 24 usual rates; *)
 Theorem identity_rate_count_partial : forall F r, 2 <= F <= 1024 -> In r usual_rates -> new_frame_count F r r = Ok F.
 Proof. exact same_rate_count. Qed.
 Print Assumptions identity_rate_count_partial.
+(* (ii) for EVERY F below 2^50 and every positive finite rate r = m * 2^e, m < 2^53, -553 <= e <= 447 (2^-553 <= r < 2^500;
+   [rate_ok] is that boolean test): round(F * r / r) = F in binary64, by a rounding-error analysis over the reals - the kernel's
+   primitive floats connected to Flocq's correctly rounded operations (standard library FloatAxioms, real-number axioms, excluded
+   middle: see Print Assumptions) *)
+Theorem identity_rate_count : forall (F : nat) (r : float),
+  1 <= F -> (Z.of_nat F < 2 ^ 50)%Z -> rate_ok r = true -> new_frame_count F r r = Ok F.
+Proof. exact same_rate_count_all. Qed.
+Print Assumptions identity_rate_count.
+Example identity_rate_count_usual_rates : forallb rate_ok usual_rates = true.
+Proof. exact usual_rates_ok. Qed.
+Print Assumptions identity_rate_count_usual_rates.
+Example identity_rate_count_example :
+  new_frame_count (Z.to_nat 123456789) 29.97%float 29.97%float = Ok (Z.to_nat 123456789).
+Proof. exact same_rate_count_all_example. Qed.
+Print Assumptions identity_rate_count_example.
 Example identity_rate_example :
   exists o, interpolated wit ex_body None Quadratic o 8 /\ 8 = frames_of ex_body /\ seen ex_body 3 0 0.
 Proof. exact ex_identity. Qed.
